@@ -147,7 +147,7 @@ pub mod probe_target {
 pub mod probe_token {
     //! Token with arbitrary metadata (anything the real token's constructor
     //! would refuse) for remote-deployment announcements.
-    use soroban_sdk::{contract, contractimpl, contracttype, Address, Env, String};
+    use soroban_sdk::{contract, contractimpl, contracttype, Address, Bytes, Env, IntoVal, String, Symbol, Val};
 
     #[contracttype]
     #[derive(Clone)]
@@ -161,6 +161,8 @@ pub mod probe_token {
         /// the token reports its real metadata for this many metadata reads, then empty strings and 256
         FlakyAfter,
         Reads,
+        /// the token answers a metadata getter with a value of another type (see `set_weird`)
+        Weird,
     }
 
     #[contract]
@@ -176,6 +178,7 @@ pub mod probe_token {
         /// a token may change what it reports about itself
         pub fn set_meta(env: Env, name: String, symbol: String, decimals: u32) {
             env.storage().instance().remove(&Key::FlakyAfter);
+            env.storage().instance().remove(&Key::Weird);
             env.storage().instance().set(&Key::Name, &name);
             env.storage().instance().set(&Key::Symbol, &symbol);
             env.storage().instance().set(&Key::Decimals, &decimals);
@@ -192,23 +195,46 @@ pub mod probe_token {
             env.storage().instance().set(&Key::Reads, &reads);
             reads > after
         }
-        pub fn name(env: Env) -> String {
-            if Self::lying(&env) {
-                return String::from_str(&env, "");
-            }
-            env.storage().instance().get(&Key::Name).unwrap()
+        /// a token may answer a getter with a value of an unexpected type: 1 decimals as u64 300,
+        /// 2 decimals as i128 7, 3 name as a symbol, 4 symbol as bytes, 5 decimals as void
+        pub fn set_weird(env: Env, mode: u32) {
+            env.storage().instance().set(&Key::Weird, &mode);
         }
-        pub fn symbol(env: Env) -> String {
-            if Self::lying(&env) {
-                return String::from_str(&env, "");
-            }
-            env.storage().instance().get(&Key::Symbol).unwrap()
+        fn weird(env: &Env) -> u32 {
+            env.storage().instance().get(&Key::Weird).unwrap_or(0)
         }
-        pub fn decimals(env: Env) -> u32 {
-            if Self::lying(&env) {
-                return 256;
+        pub fn name(env: Env) -> Val {
+            if Self::weird(&env) == 3 {
+                return Symbol::new(&env, "name").into_val(&env);
             }
-            env.storage().instance().get(&Key::Decimals).unwrap()
+            if Self::lying(&env) {
+                return String::from_str(&env, "").into_val(&env);
+            }
+            let n: String = env.storage().instance().get(&Key::Name).unwrap();
+            n.into_val(&env)
+        }
+        pub fn symbol(env: Env) -> Val {
+            if Self::weird(&env) == 4 {
+                return Bytes::from_slice(&env, b"SYM").into_val(&env);
+            }
+            if Self::lying(&env) {
+                return String::from_str(&env, "").into_val(&env);
+            }
+            let n: String = env.storage().instance().get(&Key::Symbol).unwrap();
+            n.into_val(&env)
+        }
+        pub fn decimals(env: Env) -> Val {
+            match Self::weird(&env) {
+                1 => return 300u64.into_val(&env),
+                2 => return 7i128.into_val(&env),
+                5 => return ().into_val(&env),
+                _ => {}
+            }
+            if Self::lying(&env) {
+                return 256u32.into_val(&env);
+            }
+            let d: u32 = env.storage().instance().get(&Key::Decimals).unwrap();
+            d.into_val(&env)
         }
         // the rest of the standard token interface, so that a contract consulting allowances meets a conforming token
         pub fn allowance(env: Env, from: Address, spender: Address) -> i128 {
